@@ -470,32 +470,50 @@ def rule_d(ctx: Context, R: Reporter):
 
 # ------------------------------------------------------------------ C14.e
 def rule_e(ctx: Context, R: Reporter):
+    from ..util import conds_holding_at, is_none_test
+
     cl, wiring, users = shared_clusterer(ctx)
     n = 0
-    for (call, tg) in ctx.cg.sites.get(wiring.qualname, []):
-        if cl not in tg:
-            continue
-        mi = call_arg(call, None, "max_iterations")
-        if mi is None:
-            R.check("C14.e", "the cluster cap is wired into the clusterer", False, wiring, call, msg=f"{wiring.short}: clusterer built without max_iterations", key="cap-wired")
-            continue
-        n += 1
-        # expression in n = config.n_max_clusters on the branch where it is not None
-        branch = None
-        if isinstance(mi, ast.IfExp):
-            from ..util import is_none_test
-
-            nt = is_none_test(mi.test)
-            if nt is not None and "n_max_clusters" in norm_text(nt[0]):
-                branch = mi.orelse if nt[1] else mi.body
-                none_branch = mi.body if nt[1] else mi.orelse
-        if branch is None:
-            raise AnalysisError(f"C14.e: max_iterations expression `{unparse(mi)}` not of the form `X if cap is None else f(cap)`")
-        lin = _lin_in(branch, "n_max_clusters")
-        ok = lin is not None and lin[0] == 1 and lin[1] + 1 <= 0
-        R.check("C14.e", "max_iterations + 1 <= n_max_clusters (each accepted split adds one cluster to the initial one)", ok, wiring, call,
-                msg=f"{wiring.short}: max_iterations = `{unparse(branch)}`; with one initial cluster and one split per iteration the model can reach "
-                    f"{unparse(branch)} + 1 clusters, above the configured cap", key="cap-arith")
+    for fi in ctx.prog.functions.values():
+        for (call, tg) in ctx.cg.sites.get(fi.qualname, []):
+            if cl not in tg:
+                continue
+            mi = call_arg(call, None, "max_iterations")
+            if mi is None:
+                R.check("C14.e", "the cluster cap is wired into the clusterer", False, fi, call, msg=f"{fi.short}: clusterer built without max_iterations", key="cap-wired")
+                continue
+            flow = flow_of(fi.node)
+            at = flow.node_containing(call)
+            # candidate (expression, cap-is-None?) pairs: conditional expression or definitions under an if/else on the cap
+            cands = []
+            if isinstance(mi, ast.IfExp):
+                nt = is_none_test(mi.test)
+                if nt is not None and "n_max_clusters" in norm_text(nt[0]):
+                    cands.append((mi.body, nt[1]))
+                    cands.append((mi.orelse, not nt[1]))
+            elif isinstance(mi, ast.Name):
+                for d in flow.reaching(at, mi.id):
+                    if d.value is None or d.node is None:
+                        continue
+                    if isinstance(d.value, ast.IfExp) and is_none_test(d.value.test) is not None and "n_max_clusters" in norm_text(is_none_test(d.value.test)[0]):
+                        nt = is_none_test(d.value.test)
+                        cands.append((d.value.body, nt[1]))
+                        cands.append((d.value.orelse, not nt[1]))
+                        continue
+                    for (t, pol) in conds_holding_at(flow.cfg, d.node):
+                        nt = is_none_test(t)
+                        if nt is not None and "n_max_clusters" in norm_text(nt[0]):
+                            cands.append((d.value, nt[1] == pol))
+            branch = [e for (e, cap_none) in cands if not cap_none]
+            if not branch:
+                raise AnalysisError(f"C14.e: max_iterations expression `{unparse(mi)}` in {fi.short} is not selected by an `n_max_clusters is None` test")
+            n += 1
+            for b in branch:
+                lin = _lin_in(b, "n_max_clusters")
+                ok = lin is not None and lin[0] == 1 and lin[1] + 1 <= 0
+                R.check("C14.e", "max_iterations + 1 <= n_max_clusters (each accepted split adds one cluster to the initial one)", ok, fi, call,
+                        msg=f"{fi.short}: max_iterations = `{unparse(b)}`; with one initial cluster and one split per iteration the model can reach "
+                            f"{unparse(b)} + 1 clusters, above the configured cap", key="cap-arith")
     R.floor("C14.e", "clusterer constructions with a cap", n, 1)
 
 
